@@ -89,6 +89,7 @@ DepositEvents(s) ==
   \cup {Send("u1", "u3", D1, 1)}
   \cup {[type |-> "ExportImport"]}
   \cup Queries
+  \cup {[type |-> "ExecuteMessages", signer |-> "adm", msgs |-> << Wd("u1", "u2", D1, 1) >>]}     \* the admin batches a withdrawal in a holder's name: only the holder's own signature moves its tokens
 
 Signers == {"opchild", "adm", "e1", "e2", "x"}
 Info(id, addr, chain, client) == [id |-> id, addr |-> addr, chain |-> chain, client |-> client, oracle |-> FALSE, cfgOK |-> TRUE]
@@ -106,6 +107,9 @@ AuthEvents(s) ==
                    << [type |-> "SpendFeePool", signer |-> "opchild", to |-> "u3", denom |-> N1, amt |-> 1], [type |-> "SpendFeePool", signer |-> "opchild", to |-> "u3", denom |-> N1, amt |-> 5] >>,
                    << Upd("opchild", [s.params EXCEPT !.admin = "x"]) >>,
                    << Upd("adm", [s.params EXCEPT !.admin = "x"]) >>,
+                   \* messages of this module that do not check an authority themselves, named after a user / an executor: the batch is for the module account's own messages only
+                   << Wd("u1", "u2", D1, 1) >>,
+                   << Dep("e1", s.seqL1, "u2", "u1", D1, 1, "d1", NoHook, "none") >>,
                    << >> }}
   \cup Queries
 
